@@ -8,3 +8,7 @@ if ! /venv/bin/python -c "import hypothesis" 2>/dev/null; then
 fi
 /venv/bin/python -c "import hypothesis, numpy, casadi, networkx; print('deps ok: hypothesis', hypothesis.__version__)"
 mkdir -p evidence replays
+# coverage-guided tier (thorough only): atheris next to the repository's packages, from the offline wheelhouse
+if ! PYTHONPATH=.deps /venv/bin/python -c "import atheris" 2>/dev/null; then
+  /venv/bin/pip install -q --no-index --find-links /opt/veriftools/wheels --target .deps atheris || echo "atheris unavailable: thorough tiers skip the coverage-guided campaign"
+fi
